@@ -101,13 +101,17 @@ func runC06(c *Ctx) {
 	// (1) roots
 	dp := p.MustFunc(rRoot, ws, "_RemoveUnusedPass.DoPass")
 	if dp != nil {
+		// DoPass is read with the package's helpers expanded (inline.go): splitting it into `p.markRoots()` and
+		// `return p.buildModule()` leaves the same statements
+		dp = &ast.FuncDecl{Recv: dp.Recv, Name: dp.Name, Type: dp.Type, Body: InlinedBody(ws, dp)}
+		markField, markedName, unmarkedName = c06MarkNames(info, dp, FuncDecl(ws, "_RemoveUnusedPass.markFuncReachable"))
 		for _, root := range []string{"Module.Start", "ElemSection.Values", "ExportSpec.FuncIdx"} {
 			if role[root] != "func" {
 				c.Undecided(rRoot, root, "", "the assembler no longer resolves this field in the function index space")
 				continue
 			}
 			looked, skips := rootLookedUp(info, p, dp, root)
-			c.Check(rootMarked(info, dp, root) || looked, rRoot, root, p.Pos(dp.Pos()), "compared with the function name under an if that marks the function reachable, or looked up in the function table and marked",
+			c.Check(rootMarked(info, dp, root) || looked || rootViaPredicate(info, ws, dp, root) || rootViaFlag(info, dp, root), rRoot, root, p.Pos(dp.Pos()), "compared with the function name under an if that marks the function reachable (in place or through a predicate of the package), or looked up in the function table and marked",
 				fmt.Sprintf("DoPass never marks functions referenced by %s as reachable: such functions are stripped although they are roots", root))
 			c.Check(len(skips) == 0, rRoot, root+": every root is visited", p.Pos(dp.Pos()), "no jump leaves a loop over the roots after a mark", strings.Join(skips, "; "))
 		}
@@ -116,14 +120,23 @@ func runC06(c *Ctx) {
 		}
 		// export roots must be restricted to kind FUNC only by an `== token.FUNC` test (not narrower)
 		okKind := false
-		ast.Inspect(dp.Body, func(n ast.Node) bool {
+		kindTest := func(n ast.Node) bool {
 			if be, ok := n.(*ast.BinaryExpr); ok && be.Op == token.EQL && strings.HasSuffix(types.ExprString(be.X), ".Kind") {
 				if k := constOfExpr(info, be.Y); k.Name == "FUNC" {
 					okKind = true
 				}
 			}
 			return true
-		})
+		}
+		ast.Inspect(dp.Body, kindTest)
+		// … or in a function of the package that DoPass calls (a root predicate)
+		for _, call := range callsIn(info, dp.Body.List) {
+			if fn := CalleeOf(info, call); fn != nil && fn.Pkg() == ws.Types {
+				if hd := declOfFunc(ws, fn); hd != nil && hd.Body != nil {
+					ast.Inspect(hd.Body, kindTest)
+				}
+			}
+		}
 		c.Check(okKind, rRoot, "ExportSpec.Kind == FUNC", p.Pos(dp.Pos()), "export roots are the exports of kind func", "export roots are not selected by Kind == token.FUNC")
 	}
 
@@ -248,13 +261,13 @@ func runC06(c *Ctx) {
 			}
 			nf++
 			// find the colour test
-			var test *ast.BinaryExpr
+			var test ast.Expr
 			var testIf *ast.IfStmt
 			ast.Inspect(rs.Body, func(m ast.Node) bool {
 				if ifs, ok := m.(*ast.IfStmt); ok {
 					for _, cj := range conjuncts(ifs.Cond) {
-						if be, ok := cj.(*ast.BinaryExpr); ok && strings.HasSuffix(types.ExprString(be.X), ".color") {
-							test, testIf = be, ifs
+						if markTestOf(info, cj) != 0 {
+							test, testIf = cj, ifs
 						}
 					}
 				}
@@ -301,7 +314,6 @@ func runC06(c *Ctx) {
 				c.Undecided(rFilt, construct, p.Pos(rs.Pos()), "no colour test found in the rebuild loop")
 				return true
 			}
-			k := constOfExpr(info, test.Y)
 			// does the if-body keep (append) or drop (continue)?
 			keeps, drops := false, false
 			ast.Inspect(testIf.Body, func(m ast.Node) bool {
@@ -315,8 +327,8 @@ func runC06(c *Ctx) {
 				}
 				return true
 			})
-			marked := (k.Name == "black" && test.Op == token.EQL) || (k.Name == "white" && test.Op == token.NEQ)
-			unmarked := (k.Name == "white" && test.Op == token.EQL) || (k.Name == "black" && test.Op == token.NEQ)
+			marked := markTestOf(info, test) > 0
+			unmarked := markTestOf(info, test) < 0
 			good := (keeps && !drops && marked) || (drops && !keeps && unmarked)
 			c.Check(good, rFilt, construct, p.Pos(test.Pos()), "kept iff marked reachable", fmt.Sprintf("the rebuild loop over %s %s elements when `%s`: reachable functions are removed / unreachable kept", over, map[bool]string{true: "keeps", false: "drops"}[keeps], types.ExprString(test)))
 			return true
